@@ -6,6 +6,8 @@ import RichModel.Lemmas.FramesTreeRect
 import RichModel.Lemmas.FramesColumns
 import RichModel.Lemmas.FramesStyled
 import RichModel.Lemmas.FramesColumnsCells
+import RichModel.Lemmas.FramesTitlePanel
+import RichModel.Lemmas.FramesBarsStyled
 import RichModel.Gen.CellWidths
 import RichModel.Gen.Boxes
 /-!
@@ -24,8 +26,11 @@ the frame's output.
 layer of `Model/FramesStyled.lean` (`padding_style`, `panel_border_style`, `panel_content_pad_style`, `align_style`,
 `vertical_center_lines`, `panel_title_own_width`, `rule_no_title_end`) and `Columns` down to the rendered grid table
 (`columns_rendered_cells`, through `Model/Layout.lean` and `Model/Table.lean`).  Panel titles and Rule texts as real
-`Text` objects (`Model/FramesTitle.lean`) are compared with rich by the correspondence check only: no theorem here is
-about them (`panel_border_style` takes the title as an arbitrary oracle).  All seven code-variant flags
+`Text` objects (`Model/FramesTitle.lean`) have, since deepening round 4, theorems of their own: `rule_text_title_fills_width`,
+`panel_text_title_own_width`, `panel_text_title_top_border` (proofs in `Lemmas/FramesTitleLine`, `FramesTitleRule`,
+`FramesTitlePanel`); the styled `Bar` / `ProgressBar` of `Model/FramesBarsStyled.lean`: `progress_bar_styled_split`,
+`progress_bar_styled_erases_to_text`, `progress_bar_finished_is_full`, `bar_styled_shape`, `bar_styled_erases_to_text`
+(`panel_border_style` still takes the title as an arbitrary oracle).  All seven code-variant flags
 (`Frames.Variant`, `SVariant`) are repaired in /repo (fixes a9def3a, 8879061, f5f2be9, f7ecf83, 63e086e, 0e1edf7,
 a442cbd); the `old_…` theorems are the witnesses for rich 9.10.0 as found.
 
@@ -805,6 +810,131 @@ theorem tree_prefix_four_cells_per_level (env : Env) (gs : List Guide) (h : ∀ 
 theorem tree_rect (env : Env) (root : TreeN σ) (w : Int) :
     ∀ l ∈ splitLines (treeConsole cw env root w), lineLength cw l = w.toNat :=
   treeConsole_rect cw cw_space cw_le_two guides_ok env root w
+
+
+/-! ## Deepening round 4: `Text` titles of Rule / Panel, styled Bar / ProgressBar -/
+
+section TextTitles
+open RichModel.Text RichModel.Wrap
+variable [BEq σ]
+
+theorem cw_ellipsis : cw '…' = 1 := by decide +kernel
+
+/-- **rule_text_title_fills_width.**  `Rule.__rich_console__` on real `Text` values (`ruleConsoleT`): for EVERY title text
+(spans, tabs, line feeds, wide characters, longer than the rule; `none` = no title), every `characters` string free of
+line feed / tab / stripped control codes (wide characters included; the constructor guarantees at least one cell), every
+alignment, every `end`, every width `w ≥ 1` and every justify / overflow / no_wrap in force, on the repaired code:
+nothing raises and the output is ONE line of exactly `w` cells followed by the `end` (`"\n"` for a title-less rule under
+the as-found flag `ruleNoTitleEnd`).  Title hypothesis: a consistent `Text` whose `tab_size` is positive (what
+`Text.__init__` builds). -/
+theorem rule_text_title_fills_width (cfg : TCfg σ) (hcw : cfg.cw = cw) (hwv : cfg.wv = WVariant.repaired) (env : Env)
+    (sv : SVariant) (o : RuleOptsT σ) (opts : TOpts) (w : Nat) (hw : 1 ≤ w) (hch : GoodC o.characters)
+    (htitle : ∀ t, o.title = some t → Text.Inv t ∧ ∃ ts, 0 < ts ∧ t.tabSize = some ts) :
+    ∃ segs x, ruleConsoleT cfg env sv o opts (w : Int) = .ok segs ∧
+      segChars segs = x ++ (if o.title.isNone && sv.ruleNoTitleEnd then ['\n'] else o.endS) ∧
+      cellLen cw x = w ∧ '\n' ∉ x ∧ ∀ s ∈ segs, s.control = false := by
+  have := ruleConsoleT_exact cfg hwv (by rw [hcw]; exact cw_space) (by rw [hcw]; exact cw_le_two) env sv o opts w hw hch htitle
+  rw [hcw] at this
+  exact this
+
+/-- **panel_text_title_own_width.**  The title part of a panel's top border, for EVERY consistent `Text` title (spans,
+tabs, line feeds, wide characters, any alignment, longer than the panel or not) whose own overflow method is not
+"ignore": `Panel._title` succeeds and `title_text.align(…, cwid − 2, box.top)` rendered at `cwid − 2` is one line of
+exactly `cwid − 2` cells (nothing at all when `cwid − 2 < 1`: `Console.render` yields nothing in no space). -/
+theorem panel_text_title_own_width (cfg : TCfg σ) (hcw : cfg.cw = cw) (hwv : cfg.wv = WVariant.repaired) (a : AlignM)
+    (t0 : Text σ) (hi : Text.Inv t0) (ts : Nat) (hts : 0 < ts) (htab : t0.tabSize = some ts)
+    (hov : t0.overflow ≠ some RichModel.Overflow.ignore) (st : σ) (cwid : Int) (ch : Char) (hch : cw ch = 1) (hg : GoodC [ch]) :
+    ∃ title segs, panelTitleText Variant.repaired true t0 = .ok (some title) ∧
+      (textTitleO cfg a title).render st (cwid - 2) ch (cwid - 2) = some segs ∧
+      lineLength cw segs = (cwid - 2).toNat ∧ '\n' ∉ segChars segs ∧ ∀ s ∈ segs, s.control = false := by
+  have := textTitleO_own_width cfg hwv (by rw [hcw]; exact cw_space) (by rw [hcw]; exact cw_le_two) (by rw [hcw]; exact cw_ellipsis)
+    a t0 hi ts hts htab hov st cwid ch (by rw [hcw]; exact hch) hg
+  rw [hcw] at this
+  exact this
+
+/-- **panel_text_title_top_border.**  Hence the whole top border of a repaired panel with such a title — corner, one
+`top`, the title part, one `top`, corner — is exactly `cwid + 2` cells, the width of every other line of the panel
+(`panel_border_style`), for every child width `cwid ≥ 2`. -/
+theorem panel_text_title_top_border (cfg : TCfg σ) (hcw : cfg.cw = cw) (hwv : cfg.wv = WVariant.repaired) (A : SOps σ)
+    (env : Env) (sv : SVariant) (hsv : sv.titleAtConsoleWidth = false) (a : AlignM)
+    (t0 : Text σ) (hi : Text.Inv t0) (ts : Nat) (hts : 0 < ts) (htab : t0.tabSize = some ts)
+    (hov : t0.overflow ≠ some RichModel.Overflow.ignore) (s b : σ) (box : Frames.Box) (hbox : box.Narrow cw)
+    (hg : GoodC [box.top]) (cwid : Int) (h2 : 2 ≤ cwid) :
+    ∃ title top, panelTitleText Variant.repaired true t0 = .ok (some title) ∧
+      panelTopLineS A env sv s b (some (textTitleO cfg a title)) box cwid = some top ∧
+      lineLength cw top = (cwid + 2).toNat := by
+  obtain ⟨title, segs, h1, h2', h3, _, _⟩ := panel_text_title_own_width cfg hcw hwv a t0 hi ts hts htab hov (A.add s b) cwid
+    box.top hbox.2.1 hg
+  refine ⟨title, [segS (some (A.add s b)) [box.topLeft, box.top]] ++ segs ++ [segS (some (A.add s b)) [box.top, box.topRight]], h1, ?_, ?_⟩
+  · simp only [panelTopLineS, hsv, Bool.false_eq_true, if_false, h2']
+  · simp only [lineLength, List.map_append, List.sum_append, List.map_cons, List.map_nil, List.sum_cons, List.sum_nil] at h3 ⊢
+    rw [h3]
+    simp only [Segment.cellLength, segS, cellLen, List.map_cons, List.map_nil, List.sum_cons, List.sum_nil,
+      hbox.1, hbox.2.1, hbox.2.2.1]
+    simp
+    omega
+
+/-- a title with a tab, a wide character and a span; `natOps` as the style algebra -/
+def exTitle : Text Nat :=
+  { plain := ['a', '\t', 'あ', '\n', 'b'], length := 5, spans := [⟨1, 4, 7⟩], style := 0, justify := none, overflow := none,
+    noWrap := none, endStr := ['\n'], tabSize := some 8 }
+def exCfg : TCfg Nat := { cw := cw, A := natOps, wv := WVariant.repaired }
+
+example : Text.Inv exTitle := by unfold Text.Inv; decide
+example : GoodC ['─', 'あ'] := by
+  intro c hc
+  simp only [List.mem_cons, List.mem_nil_iff, or_false] at hc
+  rcases hc with rfl | rfl <;> decide
+example : exTitle.overflow ≠ some RichModel.Overflow.ignore ∧ exTitle.tabSize = some 8 := by decide
+
+end TextTitles
+
+/-! ### styled Bar / ProgressBar (`Model/FramesBarsStyled.lean`; the pulse animation depends on `monotonic()` and is excluded) -/
+
+/-- **progress_bar_styled_split.**  `ProgressBar.__rich_console__` (no pulse) cell by cell with the style of every cell, for
+every total (0 and negative included), completed (negative, beyond the total), width option and available width with a
+non-negative bar width: `h / 2` bar cells then `h % 2` half-bar cell, all in the complete style — the finished style iff
+`completed ≥ total` —, then, only when colour is available, the remaining `width − h/2 − h%2` cells in the background
+style (the first a left half bar when the completed part ends on a full cell); `width` cells in all with colour, never
+more without (`h` = `complete_halves`). -/
+theorem progress_bar_styled_split (env : Env) (o : ProgressOpts) (w : Int) (hw : 0 ≤ barWidth o.width w)
+    (htd : 0 < o.total.den) (hcd : 0 < o.completed.den) :
+    let width := barWidth o.width w
+    let ascii := env.legacyWindows || env.asciiOnly
+    let bar := if ascii then '-' else '━'
+    let halfR := if ascii then ' ' else '╸'
+    let halfL := if ascii then ' ' else '╺'
+    let h := progressHalves o width
+    let fill := progressFillSty o
+    let colour := !env.noColor && env.colorSystem != 0
+    let rem := width - h / 2 - h % 2
+    let lead : Nat := if h % 2 = 0 ∧ 0 < h / 2 ∧ 0 < rem then 1 else 0
+    0 ≤ h ∧ h ≤ width * 2 ∧ 0 ≤ rem ∧
+    styledCells (progressStyled env o w) =
+      List.replicate (h / 2).toNat (bar, fill) ++ List.replicate (h % 2).toNat (halfR, fill)
+        ++ (if colour then List.replicate lead (halfL, BarSty.back) ++ List.replicate (rem.toNat - lead) (bar, BarSty.back)
+            else []) ∧
+    (styledCells (progressStyled env o w)).length = (if colour then width.toNat else ((h + 1) / 2).toNat) ∧
+    (styledCells (progressStyled env o w)).length ≤ width.toNat :=
+  progressStyled_split env o w hw htd hcd
+
+/-- erasing the style ids gives back the text model of `Model/Frames.lean` (`progress_bar_le_and_exact` is about it) -/
+theorem progress_bar_styled_erases_to_text (env : Env) (o : ProgressOpts) (w : Int) (hp : o.pulse = false) :
+    eraseSty (σ := σ) (progressStyled env o w) = progressConsole env o w :=
+  progressStyled_erase env o w hp
+
+/-- a finished bar (total ≠ 0) is full: `complete_halves = 2 · width`, so by the split theorem every cell is a bar cell
+in the finished style -/
+theorem progress_bar_finished_is_full (o : ProgressOpts) (width : Int) (htd : 0 < o.total.den) (hcd : 0 < o.completed.den)
+    (hz : o.total.isZero = false) (hfin : progressFillSty o = BarSty.finished) : progressHalves o width = width * 2 :=
+  progressHalves_finished o width htd hcd hz hfin
+
+/-- `Bar.__rich_console__`: ONE segment in the bar's own style, then `Segment.line()` -/
+theorem bar_styled_shape (o : BarOpts) (w : Int) : ∃ t, barStyled o w = [(t, BarSty.own), (['\n'], BarSty.line)] :=
+  barStyled_shape o w
+
+theorem bar_styled_erases_to_text (o : BarOpts) (w : Int) : eraseSty (σ := σ) (barStyled o w) = barConsole o w :=
+  barStyled_erase o w
 
 /-! ## Non-vacuity -/
 
